@@ -117,6 +117,10 @@ func vLexLE(a, b weight) bool {
 //@   call mapupdate#4 assert we.precedence == declarationPrecedence(sh.origin, decl.Important) && we.specificity == specificity
 //@   call mapupdate#4 assert oldWeight.isNone() || vLexLE(oldWeight, we)
 //@   call mapupdate#4 assert arg2.weight == we && arg1 == decl.Name
+// ... and later declarations win ties: after a declaration is processed its slot holds the new weight unless the
+// weight it held was STRICTLY greater (style attributes and hints; then style sheets)
+//@   loop 2 step[later-wins-ties] (style[decl.Name].weight == we && style[decl.Name].value == decl.Value) || (!old(style[decl.Name].weight).isNone() && !vLexLE(old(style[decl.Name].weight), we))
+//@   loop 6 step[later-wins-ties-sheets] (style[decl.Name].weight == we && style[decl.Name].value == decl.Value) || (!old(style[decl.Name].weight).isNone() && !vLexLE(old(style[decl.Name].weight), we))
 
 //@ func (pageIndex).IsNone
 //@   props C12
